@@ -67,6 +67,8 @@ def _check_answer(name, arg, res, A, dtype, toggles):
     if name == "root_decomposition":
         R = numeric.dense(res.root).to(torch.float64)
         return close(R @ R.mT, Ad, "root_decomposition(method=%s): R R^T != matrix" % METHOD_ARG[arg])
+    if name == "root_inv_decomposition_vecs":
+        return None       # a Lanczos (Krylov-space) inverse root: its value is C06 / C09's subject; what it leaves in the cache is judged by later queries
     if name == "root_inv_decomposition":
         R = numeric.dense(res.root).to(torch.float64)
         return close(R @ R.mT @ Ad, torch.eye(n, dtype=torch.float64).expand_as(Ad), "root_inv_decomposition(method=%s): R R^T A != I" % METHOD_ARG[arg])
@@ -95,6 +97,43 @@ def _check_answer(name, arg, res, A, dtype, toggles):
     raise KeyError(name)
 
 
+def _check_krylov(name, res, A, dtype):
+    """Lanczos-type answers (above max_cholesky_size): exact only on the Krylov space they span - they must equal the orthogonal compression
+    of the matrix (of its inverse) onto that space (the relation of C06 / C09)"""
+    from .c06 import _compression
+
+    Ad = A.to(torch.float64)
+    t = 2e-3 if dtype == torch.float64 else 5e-2
+    scale = max(1.0, float(Ad.abs().max()))
+
+    def close(X, Y, what):
+        e = float((X - Y).abs().max()) / scale
+        return None if e <= t else "%s: deviation %.3g > %.1g (relative to max|A|)" % (what, e, t)
+
+    if name == "root_decomposition":
+        R = numeric.dense(res.root).to(torch.float64)
+        comp, rank = _compression(R, Ad)
+        return close(R @ R.mT, comp, "Lanczos root: R R^T is not the compression of the matrix onto span(R) (rank %d)" % rank)
+    if name == "diagonalization":
+        w, Q = res
+        Q = numeric.dense(Q).to(torch.float64)
+        w = w.to(torch.float64)
+        G = Q.mT @ Q
+        kept = (G.diagonal(dim1=-1, dim2=-2) > 0.5).to(torch.float64)
+        m = close(G, torch.diag_embed(kept), "Lanczos diagonalization: Q^T Q is not a 0/1 diagonal")
+        comp, rank = _compression(Q, Ad)
+        return m or close(Q @ torch.diag_embed(w) @ Q.mT, comp, "Lanczos diagonalization: Q diag(w) Q^T is not the compression of the matrix onto span(Q) (rank %d)" % rank)
+    if name == "root_inv_decomposition":
+        R = numeric.dense(res.root).to(torch.float64)
+        U, Sv, _ = torch.linalg.svd(R, full_matrices=False)
+        rank = int((Sv > 1e-7 * Sv.max(-1, keepdim=True)[0]).sum(-1).min())
+        Qk = U[..., :, :rank]
+        M = Qk @ torch.linalg.inv(Qk.mT @ Ad @ Qk) @ Qk.mT
+        e = float((R @ R.mT - M).abs().max()) / max(1e-30, float(M.abs().max()))
+        return None if e <= t * 10 else "Lanczos inverse root: R R^T is not the inverse of the matrix's compression onto span(R): relative deviation %.3g" % e
+    return None
+
+
 def _ask(op, name, arg, dtype):
     n = op.shape[-1]
     if name == "to_dense":
@@ -109,6 +148,10 @@ def _ask(op, name, arg, dtype):
         return op.root_inv_decomposition(method=METHOD_ARG[arg])
     if name == "diagonalization":
         return op.diagonalization(method=METHOD_ARG[arg])
+    if name == "root_inv_decomposition_vecs":
+        g = torch.Generator().manual_seed(17)
+        v = torch.randn(*op.batch_shape, n, 1, generator=g, dtype=torch.float64).to(dtype)
+        return op.root_inv_decomposition(initial_vectors=v, method="lanczos")
     if name == "eigh":
         return op.eigh()
     if name == "svd":
@@ -189,6 +232,7 @@ def replay_history(beh, dtype=torch.float64):
     objs = {1: (op, bind.tensor(beh["dense"], torch.float64))}
     cur = 1
     toggles = set()
+    lanczos_objs = set()      # objects whose caches hold Lanczos by-products of a probe-vector query (documented 1e-6 tridiagonal jitter)
     with contextlib.ExitStack() as stack:
         for i, st in enumerate(beh["steps"]):
             act, name, arg = st["act"], st["name"], st["arg"]
@@ -205,10 +249,16 @@ def replay_history(beh, dtype=torch.float64):
                             o.zero_mean_mvn_samples(1)
                             m = None
                         else:
-                            m = numeric.sampling_covariance_check(lambda: o.zero_mean_mvn_samples(1), A, 1, dtype, "direct")
+                            m = numeric.sampling_covariance_check(lambda: o.zero_mean_mvn_samples(1), A, 1, dtype,
+                                                                  "lanczos" if cur in lanczos_objs else "direct")
                     else:
                         ans = _ask(o, name, arg, dtype)
-                        m = None if lanczos_valued else _check_answer(name, arg, ans, A, dtype, toggles)
+                        if name == "root_inv_decomposition_vecs":
+                            lanczos_objs.add(cur)
+                        if lanczos_valued:
+                            m = _check_krylov(name, ans, A, dtype) if arg == 0 else None
+                        else:
+                            m = _check_answer(name, arg, ans, A, dtype, toggles or (cur in lanczos_objs))
                     if m:
                         fails.append((i, "answer", m))
                 elif act == "derive":
@@ -225,6 +275,8 @@ def replay_history(beh, dtype=torch.float64):
                         new = o.cat_rows(An[..., n:, :n].to(dtype).contiguous(), An[..., n:, n:].to(dtype).contiguous())
                     else:
                         new = _derive(o, name, dtype, st["den"])
+                    if cur in lanczos_objs:
+                        lanczos_objs.add(st["obj"])      # derived operators may take over (updated) cached roots of their parent
                     cur = st["obj"]
                     objs[cur] = (new, An)
                     m = _check_answer("to_dense", 0, new.to_dense(), An, dtype, True)
@@ -243,7 +295,7 @@ def replay_history(beh, dtype=torch.float64):
                 break
             # ---- CacheValid on the real objects, after every step
             for k, (o, A) in objs.items():
-                for m in _validate_cache(o, A, dtype, toggles, skip_lanczos="max_cholesky_size_0" in toggles):
+                for m in _validate_cache(o, A, dtype, toggles or (k in lanczos_objs), skip_lanczos="max_cholesky_size_0" in toggles):
                     fails.append((i, "cache", m))
             if fails:
                 break
@@ -292,7 +344,7 @@ def run(tier, seed):
     for inst, cls in enumerate(INST, start=1):
         t, diag_like = honors_table(cls)
         depth = 2 if tier == "quick" else 3
-        c = dict(Depth=depth, Emit=True, Inst=inst, Seed=seed, ValSeed=seed, DiagLike=diag_like, H_cholesky=t["cholesky"], H_root=t["root_decomposition"],
+        c = dict(Depth=depth, Emit=True, FamilyOn=True, Inst=inst, Seed=seed, ValSeed=seed, DiagLike=diag_like, H_cholesky=t["cholesky"], H_root=t["root_decomposition"],
                  H_rootinv=t["root_inv_decomposition"], H_diag=t["diagonalization"], H_svd=t["svd"], H_todense=t["to_dense"])
         r = tlc.run("LOCache", "c12.%s.%d" % (tier, inst), constants=c, invariants=["CacheOwned", "CacheValid", "EmitInv"],
                     properties=["DenStable"], workers=16, timeout=3000, heap="12g")
@@ -308,7 +360,7 @@ def run(tier, seed):
         # plus a slice of the depth-3 histories of two instances
         for inst in (1, 6):
             t, diag_like = honors_table(INST[inst - 1])
-            c = dict(Depth=3, Emit=True, Inst=inst, Seed=seed, ValSeed=seed, DiagLike=diag_like, H_cholesky=t["cholesky"], H_root=t["root_decomposition"],
+            c = dict(Depth=3, Emit=True, FamilyOn=False, Inst=inst, Seed=seed, ValSeed=seed, DiagLike=diag_like, H_cholesky=t["cholesky"], H_root=t["root_decomposition"],
                      H_rootinv=t["root_inv_decomposition"], H_diag=t["diagonalization"], H_svd=t["svd"], H_todense=t["to_dense"])
             r = tlc.run("LOCache", "c12.q3.%d" % inst, constants=c, invariants=["CacheOwned", "CacheValid", "EmitInv"], workers=16,
                         timeout=3000, heap="12g")
@@ -317,7 +369,7 @@ def run(tier, seed):
             behs += sorted(r["out"], key=lambda b: json.dumps(b["steps"], sort_keys=True))[inst::7]
     # non-vacuity of the key discipline: a table in which cholesky ignores its arguments must be rejected for a non-diagonal class
     t, _ = honors_table("Dense")
-    rv = tlc.run("LOCache", "c12.bad", constants=dict(Depth=2, Emit=False, Inst=1, Seed=seed, ValSeed=seed, DiagLike=False, H_cholesky=False, H_root=True,
+    rv = tlc.run("LOCache", "c12.bad", constants=dict(Depth=2, Emit=False, FamilyOn=False, Inst=1, Seed=seed, ValSeed=seed, DiagLike=False, H_cholesky=False, H_root=True,
                                                       H_rootinv=True, H_diag=True, H_svd=True, H_todense=True),
                  invariants=["CacheValid"], workers=8, timeout=600, heap="4g")
     if rv["violated"] != "CacheValid":
